@@ -34,7 +34,7 @@ def run(ctx):
     seeds = [ctx.rng.randrange(1 << 30) for _ in range(n)]
     tasks = [dict(fn="tasks_rt:compiled_case", args=dict(seed=s, exec_export=(k % 2 == 0)), timeout=900) for k, s in enumerate(seeds)]
     # families the random generator rarely produces: a node much faster than the supervisor (>= 11 slots of one kind per partition), peers sharing a generation
-    tasks += [dict(fn="tasks_rt:compiled_case", args=dict(seed=ctx.rng.randrange(1 << 30), spec_kind=k), timeout=900) for k in ["high_ratio", "equal_rates", "trainable"] * ctx.n(1, 3)]
+    tasks += [dict(fn="tasks_rt:compiled_case", args=dict(seed=ctx.rng.randrange(1 << 30), spec_kind=k, exec_export=(k != "trainable")), timeout=900) for k in ["high_ratio", "equal_rates", "trainable"] * ctx.n(1, 3)]
     good = ac.pool_cases(tasks, res, timeout=900)
     xcmds, xmeta = [], []
     for t, r in good:
